@@ -100,6 +100,10 @@ def _role_names(fname, names):
     return list(roles)
 
 
+class _NotMasked(Exception):
+    """a store under `if np.any(m):` that is not restricted to m (internal control flow of if_stmt)"""
+
+
 class Kernel:
     def __init__(self, fi):
         self.fi = fi
@@ -131,8 +135,8 @@ class KInterp:
         self.skipped = []
 
     # ------------------------------------------------------------------ entry
-    def run(self, fi, args=None, param_syms=None):
-        """interpret function `fi`; args: dict param -> value overrides"""
+    def run(self, fi, args=None, param_syms=None, G0=None):
+        """interpret function `fi`; args: dict param -> value overrides; G0: guard under which the call happens (inlined calls)"""
         env = {}
         for p in fi.params():
             if p in ("cls", "self") and fi.cls is not None:
@@ -145,7 +149,7 @@ class KInterp:
             else:
                 env[p] = GExpr.of(Poly.sym((param_syms or {}).get(p, p)))
         k = Kernel(fi)
-        st = {"fi": fi, "env": env, "G": BExpr.true(), "loopvars": set(), "kernel": k, "mask": None,
+        st = {"fi": fi, "env": env, "G": G0 if G0 is not None else BExpr.true(), "loopvars": set(), "kernel": k, "mask": None,
               "returned": False}
         k.env = env
         k.error = None
@@ -361,8 +365,39 @@ class KInterp:
                 if "any:*" in self.consts:
                     return self.block(s.body if self.consts["any:*"] else s.orelse, st)
                 raise Unsupported("np.any/np.all test with else arm: %s" % U(s.test))
-            # body consists of masked stores: executing it unconditionally is equivalent
-            return self.block(s.body, st)
+            # `if np.any(m): a[m] = ...` : when every store of the body is restricted to m, executing the body unconditionally is
+            # equivalent.  Anything else (a negated test, np.all, an unmasked store) depends on the whole array: the body then runs
+            # under an opaque whole-array flag, so its effect shows up as select(flag, new, old) and not as a row-wise law
+            if test.kind == "any" and not test.negated and getattr(self, "_any_guard", None) is None:
+                snap = (dict(st["env"]), dict(self.pit), list(self.pit_order), len(self.res_writes), len(st["kernel"].raises) if st.get("kernel") else 0)
+                self._any_guard = test.b
+                try:
+                    self.block(s.body, st)
+                    return
+                except _NotMasked:
+                    st["env"].clear(); st["env"].update(snap[0])
+                    self.pit.clear(); self.pit.update(snap[1])
+                    self.pit_order[:] = snap[2]
+                    del self.res_writes[snap[3]:]
+                    if st.get("kernel"):
+                        del st["kernel"].raises[snap[4]:]
+                finally:
+                    self._any_guard = None
+            elif test.kind == "any" and not test.negated:
+                return self.block(s.body, st)       # nested under an outer any-guard: its check still applies
+            flag = BExpr.lit(("flag", "whole-array:%s:%s" % (test.kind, repr(test.b.key())[:160])))
+            if test.negated:
+                flag = ~flag
+            G0 = st["G"]
+            outer = getattr(self, "_any_guard", None)
+            self._any_guard = None
+            try:
+                st["G"] = G0 & flag
+                self.block(s.body, st)
+            finally:
+                st["G"] = G0
+                self._any_guard = outer
+            return
         if isinstance(test, BExpr):
             # `if c: continue`
             if len(s.body) == 1 and isinstance(s.body[0], ast.Continue) and not s.orelse:
@@ -517,6 +552,7 @@ class KInterp:
                 env[name] = self._select(G, v, old) if not G.is_true() else v
                 return
             if isinstance(sl, ast.Slice) and sl.lower is None and sl.upper is None:
+                self._check_any_guard(G)
                 if v is None:
                     v = self.eval(value_expr, st)
                 env[name] = self._select(G, v, old) if not G.is_true() else v
@@ -568,6 +604,7 @@ class KInterp:
                 self.user_data_writes.append({"target": U(t), "alias_of": str(old), "fi": st["fi"], "node": t})
             if isinstance(idx, BExpr):
                 # numpy masked store
+                self._check_any_guard(G & idx)
                 st2 = dict(st, mask=idx)
                 if v is None:
                     v = self.eval(value_expr, st2)
@@ -584,6 +621,7 @@ class KInterp:
         rt = self._res_target(t, st)
         if rt is not None:
             tbl, colname, sel = rt
+            self._check_any_guard((G & sel) if isinstance(sel, BExpr) else G)
             if v is None:
                 st2 = dict(st, mask=sel) if isinstance(sel, BExpr) else st
                 v = self.eval(value_expr, st2)
@@ -1266,11 +1304,21 @@ class KInterp:
         k = (pit, rk, colr[0], colr[1])
         old = self.pit[k] if k in self.pit else self._pit_read(pit, rk, colr)
         cond = G if mask is None else (G & mask)
+        self._check_any_guard(cond)
         if isinstance(v, BExpr):
             v = self._as_num(v)
         self.pit[k] = v if cond.is_true() else self._select(cond, v, old)
         if k not in self.pit_order:
             self.pit_order.append(k)
+
+    def _check_any_guard(self, cond):
+        """inside the body of `if np.any(m):` that is being executed as if unconditional: the store must touch only elements where
+        m holds (then the whole-array test changes nothing); otherwise if_stmt falls back to an explicit whole-array flag"""
+        ag = getattr(self, "_any_guard", None)
+        if ag is None:
+            return
+        if not (cond & ~ag).is_false():
+            raise _NotMasked()
 
     def _is_param_sym(self, g):
         p = g.plain()
@@ -1615,7 +1663,9 @@ class KInterp:
         sub.internal_lookup_reads = self.internal_lookup_reads
         sub.resilient = False
         sub.partial = False
-        k = sub.run(g, a2)
+        sub._any_guard = getattr(self, "_any_guard", None)
+        # the callee's stores happen under the guard of the call site
+        k = sub.run(g, a2, G0=st["G"] if not st["G"].is_true() else None)
         self.notes.extend(sub.notes)
         if k.early:
             self.notes.append("early return of inlined %s treated as shortcut" % g.name)
